@@ -33,7 +33,9 @@ EXPLANATION = (
     ' '
     'R-C13.10 change_meta_indexes looks the per-index dictionaries up under an order-insensitive key (R-C13.9, sibling key order of the two producers, was withdrawn once fix d79d704 made the order irrelevant).'
     ' '
-    'R-C13.11 TupleSerialization writes the trailing comma only on a path controlled by len(value) == 1.')
+    'R-C13.11 TupleSerialization writes the trailing comma only on a path controlled by len(value) == 1.'
+    ' '
+    'R-C13.12 Diff._get_initial_value hands a hint the evaluated default (get_default()) or the placeholder, never the raw `default` attribute (a callable default would be written as its repr).')
 NOT_DECIDED = (
     'Semantic equality of the re-loaded mutations (same signature change, '
     'same SQL) for all values; validity of the rendered Python for every '
@@ -945,7 +947,49 @@ def r11_tuple_comma_only_for_one_element(ctx):
     ctx.floor('trailing-comma literals in TupleSerialization', n, 1)
 
 
+def r12_hinted_initial_is_an_evaluated_default(ctx):
+    """The initial value a hint carries is written out with
+    serialize_to_python(), which renders a function / lambda / bound method
+    by repr() - `<function f at 0x...>`, not loadable.  Diff._get_initial_value
+    therefore hands out either the *evaluated* default (field.get_default())
+    or the NullFieldInitialCallback placeholder, never the raw `default`
+    attribute of the field, which may be any callable."""
+    ctx.rule('R-C13.12')
+    from ..util import expand_expr, unit
+    p = ctx.program
+    f = p.func('diff', 'Diff._get_initial_value')
+    n_ret = n_eval = 0
+    for fn in unit(ctx, f):
+        for r in walk_no_nested(fn.node):
+            if not (isinstance(r, ast.Return) and r.value is not None):
+                continue
+            n_ret += 1
+            e = expand_expr(fn, r.value)
+            raw = [a for a in ast.walk(e) if isinstance(a, ast.Attribute) and
+                   a.attr in ('default', '_default') and
+                   isinstance(a.ctx, ast.Load)]
+            called = {id(c.func) for c in ast.walk(e)
+                      if isinstance(c, ast.Call)}
+            raw = [a for a in raw if id(a) not in called]
+            if any(isinstance(c, ast.Call) and call_name(c) == 'get_default'
+                   for c in ast.walk(e)):
+                n_eval += 1
+            if raw:
+                ctx.finding(f, r, 'Diff._get_initial_value returns the '
+                            'field\'s raw default attribute (%s): a callable '
+                            'default reaches the hint unevaluated and is '
+                            'written as its repr(), which cannot be loaded' %
+                            ' '.join(unparse(r.value).split()),
+                            key='raw-default-returned')
+            else:
+                ctx.ok(f, 'returned initial value is not the raw default '
+                       'attribute', r)
+    ctx.floor('returns of Diff._get_initial_value', n_ret, 2)
+    ctx.floor('returns carrying get_default()', n_eval, 1)
+
+
 def run(ctx):
+    r12_hinted_initial_is_an_evaluated_default(ctx)
     r11_tuple_comma_only_for_one_element(ctx)
     r10_index_dicts_compared_order_insensitively(ctx)
     r8_hint_text_reaches_output_verbatim(ctx)
